@@ -29,6 +29,44 @@ type built struct {
 
 var toBuild []built
 
+// judgeKey re-evaluates one package in-process and returns the oracle key ("" = no violation);
+// used by the shrinker.
+func judgeKey(fs compa.Files) string {
+	p := compa.Parse(fs)
+	if p.Panic != "" || p.Err != nil {
+		return ""
+	}
+	pkg := compa.MainPkg(p.Pkgs)
+	if pkg == nil {
+		return ""
+	}
+	c := env.Compile(p.Fset, pkg, false)
+	switch {
+	case c.Panic != "" || c.Err != nil:
+		return ""
+	case c.WPanic != "":
+		return "success-write-panics:" + compa.KeyOnly(c.WPanic)
+	case c.WriteErr != nil:
+		return "success-write-fails:" + compa.ErrClass(c.WriteErr.Error())
+	}
+	if class, _ := env.GoCheck(c.Src, fs); class != "" {
+		return "success-bad-go:" + class
+	}
+	return ""
+}
+
+var shrunk = map[string]bool{}
+
+// report records an oracle failure; the first instance of each key is shrunk (lines dropped
+// while the same key persists).
+func report(o *vh.Out, key string, fs compa.Files, detail string) {
+	if !shrunk[key] && !strings.HasPrefix(key, "success-go-build-fails") {
+		shrunk[key] = true
+		fs = compa.DDMin(fs, 80, func(t compa.Files) bool { return judgeKey(t) == key })
+	}
+	o.Oracle(key, "c06\t"+compa.Blob(fs), detail)
+}
+
 func runCase(o *vh.Out, fs compa.Files, origin string, wantBuild bool) {
 	caseLine := "c06\t" + compa.Blob(fs)
 	p := compa.Parse(fs)
@@ -67,13 +105,13 @@ func runCase(o *vh.Out, fs compa.Files, origin string, wantBuild bool) {
 		return
 	case c.WPanic != "":
 		o.Count("compile_ok")
-		o.Oracle("success-write-panics:"+compa.KeyOnly(c.WPanic), caseLine, origin+": "+c.WPanic)
+		report(o, "success-write-panics:"+compa.KeyOnly(c.WPanic), fs, origin+": "+c.WPanic)
 		o.Case(caseLine, "OK-WRITEPANIC", true)
 		return
 	case c.WriteErr != nil:
 		// success reported but the output cannot even be written
 		o.Count("compile_ok")
-		o.Oracle("success-write-fails:"+compa.ErrClass(c.WriteErr.Error()), caseLine, origin+": "+c.WriteErr.Error())
+		report(o, "success-write-fails:"+compa.ErrClass(c.WriteErr.Error()), fs, origin+": "+c.WriteErr.Error())
 		o.Case(caseLine, "OK-WRITEERR", true)
 		return
 	}
@@ -81,7 +119,7 @@ func runCase(o *vh.Out, fs compa.Files, origin string, wantBuild bool) {
 	o.Count("ok_from_" + strings.SplitN(origin, ":", 2)[0])
 	class, msg := env.GoCheck(c.Src, fs)
 	if class != "" {
-		o.Oracle("success-bad-go:"+class, caseLine, origin+": "+msg)
+		report(o, "success-bad-go:"+class, fs, origin+": "+msg)
 		o.Case(caseLine, "OK-BADGO "+class, true)
 		return
 	}
